@@ -1,7 +1,13 @@
-From TT Require Import Base.Verdict Gpmf.Klv Run.Gpmf_run.
-Definition case := Gpmf_run.case.
-Definition mkCase := Gpmf_run.mkCase.
+From Coq Require Import List.
+From TT Require Import Base.Verdict Gpmf.Klv Run.Gpmf_run Run.Run_C08.
 (* C09: the call returns (ok or error): a crash or hang of the implementation is a violation
    whatever the model says; an ok/error disagreement with the model still meets the property
-   (verdict S: the correspondence no longer checks). *)
-Definition check_case := check (mkProj true true false false) false.
+   (verdict S: the correspondence no longer checks).
+   R: arbitrary bytes given to the reader; D: hostile sample tables / payloads inside an
+   otherwise valid MP4 given to the decoder. *)
+Inductive case := R (c : Gpmf_run.case) | D (c : Run_C08.case).
+Definition check_case (c : case) : verdict :=
+  match c with
+  | R r => check (mkProj true true false false) false r
+  | D d => Run_C08.check_case d
+  end.
